@@ -44,9 +44,31 @@ def cq_case(prog, group, fuel=FUEL):
                  [dc.cq_fact(f) for f in prog.get("init", [])], fuel, cq_obs(group)))
 
 
-def model_facts(ck, prog, group):
+def cq_alias_term(prog, group, vlist):
+    """Term for Run.C01.judge_alias: the original's case and its alias variants, each as
+    the list of replaced clauses (position, clause) + what Go observed on the variant
+    (None = the same observation as on the original)."""
+    vs = []
+    for var, vgroup in vlist:
+        chg = [(k, dc.cq_clause(c)) for k, c in enumerate(var["clauses"]) if c != prog["clauses"][k]]
+        vs.append((chg, Raw("VSame") if vgroup is None else C("VObs", cq_obs(vgroup))))
+    return "(%s, %s)" % (cq_case(prog, group), coq(vs) if vs else "[]")
+
+
+def decode_alias_verdict(v, nvar):
+    """judge_alias -> (judge code, judge_uf code of the original, [judge_uf code per variant])"""
+    both, rest = v % 1000, v // 1000
+    a, b = (both, both) if both < 100 else ((both - 100) // 10, (both - 100) % 10)
+    ds = []
+    for _ in range(nvar):
+        ds.append(rest % 7)
+        rest //= 7
+    return a, b, ds
+
+
+def model_facts(ck, prog, group, fn="model_tokens"):
     """Model outcome for a replay: ("ok", facts) | ("error", None) | ("fuel", None)."""
-    out = ck.coq_show("C01", "model_tokens " + cq_case(prog, group))
+    out = ck.coq_show("C01", fn + " " + cq_case(prog, group))
     m = re.search(r"=\s*\[(.*?)\]\s*:\s*list Z", out, re.S)
     if not m:
         return "unparsed", out[-500:]
@@ -58,7 +80,9 @@ VERDICT = {1: "both finished, fact sets differ",
            2: "Go returned an evaluation error, the least model exists (model finished)",
            3: "Go finished although a premise/function evaluation must fail (model reports an error)",
            4: "model out of fuel (inconclusive)",
-           5: "Go hit the fact limit (inconclusive)"}
+           5: "Go hit the fact limit (inconclusive)",
+           6: "Go agrees with the union-find model, but a negated atom or != was evaluated on an unbound variable "
+              "(outside the hypothesis of the order-independence theorem)"}
 
 
 # ------------------------------------------------------------------ exhaustive block
@@ -357,7 +381,21 @@ def run(ck):
     ck.log("go side done: %d programs, %d alias variants of %d originals (%d/%d candidate clauses accepted by analysis)"
            % (len(progs), len(variants), al["originals"], al["candidates_accepted"], al["candidates"]))
 
-    terms, where = [], []
+    # alias variants the union-find model (Run.C01.judge_uf) judges as well: evaluated by Go,
+    # one result group, encodable observation. They ride on the original's term (only the
+    # replaced clauses and, if it differs from the original's, the observation are written out).
+    uf_attach = {}
+    for vidx, ((i, v, ops, gc), o) in enumerate(zip(variants, var_outs)):
+        if "out" not in o or o["out"]["stage"] != "ok" or len(o["out"]["groups"]) != 1:
+            continue
+        if len(v["clauses"]) != len(progs[i]["clauses"]):
+            continue
+        try:
+            cq_obs(o["out"]["groups"][0])
+        except ValueError:
+            continue
+        uf_attach.setdefault(i, []).append((vidx, v, o["out"]["groups"][0]))
+    terms, where, attached = [], [], []
     f8_stores = 0
     rejected, stage_counts = [], {}
     evaluations = 0
@@ -383,18 +421,45 @@ def run(ck):
                           "program": progs[i], "src": go_cases[i]["src"], "pre": go_cases[i]["pre"],
                           "groups": [{"configs": g["configs"], "err": g["err"], "msg": g.get("msg"),
                                       "facts": [a["p"] + json.dumps(a["args"]) for a in g["facts"]]} for g in groups]})
-        for g in groups:
+        for gi, g in enumerate(groups):
             try:
-                terms.append(cq_case(progs[i], g))
+                vl = uf_attach.get(i, [])[:6] if gi == 0 else []
+                terms.append(cq_alias_term(progs[i], g, [(v, None if group_obs(vg) == group_obs(g) else vg)
+                                                          for _, v, vg in vl]))
                 where.append((i, g))
+                attached.append([vidx for vidx, _, _ in vl])
             except ValueError as e:
                 ck.violation({"property": "C01", "kind": "Go produced a value outside the modelled fragment: %s" % e,
                               "program": progs[i], "src": go_cases[i]["src"], "go": g})
     # corpus and generated programs must be accepted by the analysis (the exhaustive block
     # may contain rules the analysis rejects; those are outside the property)
     rej_random = [r for r in rejected if origin[r[0]] != "exhaustive"]
-    verdicts = ck.run_coq("C01", "judge", terms, shard=max(25, len(terms) // 16 + 1))
-    ck.log("model side done: %d comparisons" % len(terms))
+    # judge_alias = judge (Solve.v) and judge_uf (SolveUF.v) on the original + judge_uf on every attached variant
+    raw_verdicts = ck.run_coq("C01", "judge_alias", terms, shard=max(25, len(terms) // 16 + 1))
+    verdicts, uf_code = [], {}
+    ufj = {"originals_by_both_models": len(terms), "models_disagree": 0, "variants": 0, "verdicts": {},
+           "original_uf_verdicts": {}, "strict_run_differs": 0}
+    for k, rv in enumerate(raw_verdicts):
+        a, b, ds = decode_alias_verdict(rv, len(attached[k]))
+        verdicts.append(a)
+        ufj["original_uf_verdicts"][str(b)] = ufj["original_uf_verdicts"].get(str(b), 0) + 1
+        for vidx, d in zip(attached[k], ds):
+            uf_code[vidx] = d
+        if b == 6:
+            ufj["strict_run_differs"] += 1
+        if b != a and b != 6:
+            # Props/C01.v solve_uf_conservative: on alias-free programs both models compute the same
+            ufj["models_disagree"] += 1
+            if len(ck.violations) < 5:
+                i, g = where[k]
+                ck.violation({"property": "C01", "kind": "the two Coq models (Solve.v / SolveUF.v) judge one alias-free program differently",
+                              "judge": a, "judge_uf": b, "origin": origin[i], "program": progs[i], "src": go_cases[i]["src"],
+                              "pre": go_cases[i]["pre"], "configs": g["configs"],
+                              "no_longer_checks": "correspondence Run.C01.judge_uf / theorem solve_uf_conservative "
+                                                  "(its hypothesis uf_alias_free or the encoding must be broken)"},
+                             "no-failing-input-found")
+    ck.log("model side done: %d comparisons by both models, %d alias variants judged by the union-find model"
+           % (len(terms), len(uf_code)))
     vc = {}
     f8_skipped = 0
     for (i, g), v in zip(where, verdicts):
@@ -431,8 +496,14 @@ def run(ck):
     al["results"] = {}
     al["samples"] = []
     al_evals = 0
-    for (i, v, ops, gc), o in zip(variants, var_outs):
+    for vidx, ((i, v, ops, gc), o) in enumerate(zip(variants, var_outs)):
         oo = outs[i]
+        d = uf_code.get(vidx)
+        if d is not None:
+            ufj["variants"] += 1
+            ufj["verdicts"][str(d)] = ufj["verdicts"].get(str(d), 0) + 1
+            if d == 6:
+                ufj["strict_run_differs"] += 1
         if "out" not in o:
             ck.violation({"property": "C01", "alias": True, "kind": "harness error/panic on an alias variant",
                           "program": progs[i], "variant": v, "variant_src": gc["src"], "impl": o})
@@ -451,11 +522,29 @@ def run(ck):
                                   "result": detail})
         if verdict in ("equal", "inconclusive", "rejected"):
             # "rejected": every changed clause passed the analysis alone, the whole text did not
+            if d in (1, 2, 3) and verdict == "equal" and model_verdict.get(i) == [0] and len(ck.violations) < 5:
+                # Go gives the variant the original's result, which IS the least model; the union-find
+                # model evaluates the variant to something else: the model (or the clause-level
+                # equivalence theorem's reach) is off, not the engine
+                rep = alias_replay_dict(progs[i], v, ops, go_cases[i]["src"], gc["src"], gc["pre"], oo["out"], o["out"], origin[i])
+                rep["kind"] = "alias variant: Go agrees with the alias-free original, the union-find model of the variant does not"
+                rep["variant_vs_uf_model"] = {"code": d, "meaning": VERDICT[d]}
+                kind, mf = model_facts(ck, v, o["out"]["groups"][0], "model_tokens_uf")
+                rep["uf_model"] = {"outcome": kind, "facts": dc.canon(mf) if kind == "ok" else mf}
+                rep["no_longer_checks"] = ("correspondence Run.C01.judge_uf on alias variants / theorem alias_elimination_sound "
+                                           "(the variant may leave its hypotheses)")
+                ck.violation(rep, "no-failing-input-found")
             continue
         if len(ck.violations) >= 5:
             continue
         rep = alias_replay_dict(progs[i], v, ops, go_cases[i]["src"], gc["src"], gc["pre"], oo["out"], o["out"], origin[i])
         rep["original_vs_model"] = model_verdict.get(i)
+        if d is not None:
+            # the variant judged directly: Go's result on it against the union-find model's
+            rep["variant_vs_uf_model"] = {"code": d, "meaning": VERDICT.get(d, "agree")}
+            if d in (1, 2, 3):
+                kind, mf = model_facts(ck, v, o["out"]["groups"][0], "model_tokens_uf")
+                rep["uf_model"] = {"outcome": kind, "facts": dc.canon(mf) if kind == "ok" else mf}
         if verdict in ("differ", "stores-differ"):
             coll = f8_in_groups(oo["out"]["groups"] + o["out"]["groups"])
             if coll:
@@ -470,6 +559,10 @@ def run(ck):
         ck.violation(rep)
     evaluations += al_evals
     al["evaluations"] = al_evals
+    ufj["rule"] = ("every alias variant that Go evaluated (one result group) is ALSO compared with the union-find model "
+                   "(Run.C01.judge_uf = eval_program_uf of Datalog/SolveUF.v on the variant's text, codes as judge; 6 = the "
+                   "strict run differs); every original goes through judge and judge_uf (judge_both), which must agree")
+    al["judged_by_uf_model"] = ufj
     al["rule"] = ("per original up to %d clauses x %d candidate variants (dc.alias_step: 1-3 fresh variables per aliased "
                   "variable, equalities in both orientations at random body positions, half of them before the premise "
                   "that first mentions the variable; occurrences moved by kind: let / head / negated atom / comparison / "
